@@ -66,6 +66,7 @@ extern mv_shared_t * mv_sh;     /* valid in the child */
 
 /* ---- harness-side API (child) */
 void mv_start(int nworkers);     /* myth_init_ex(n_workers) + take control of all workers */
+void mv_set_default_stacksize(size_t sz); /* optional, before mv_start: default stack size of the library */
 void mv_finish(void);            /* release control (workers free-run again) */
 void mv_fail(const char * fmt, ...) __attribute__((noreturn, format(printf,1,2)));
 void mv_obs(const char * fmt, ...) __attribute__((format(printf,1,2)));
